@@ -8,7 +8,7 @@ import z3
 
 from . import e2, gram, p_c04, rxref
 from .automaton import Aut, single_string
-from .common import (EXIT_INCONCLUSIVE, EXIT_OK, EXIT_VIOLATION, Timer, log, match_known, save_replay, seed, tier, write_evidence)
+from .common import (EXIT_INCONCLUSIVE, EXIT_OK, EXIT_VIOLATION, Timer, log, match_known, save_replay, seed, settle, tier, write_evidence)
 from .rxref import Alt, Cat, Cls, Lit, Rep
 
 
@@ -408,8 +408,7 @@ def run():
     write_evidence(prop, "translation_validation", cov, tm.s(), reported, assumptions)
     if reported:
         return EXIT_VIOLATION
-    if inconclusive:
-        print("INCONCLUSIVE property=%s: %s" % (prop, inconclusive[0][:300]))
+    if settle(prop, inconclusive, len(cases)):
         return EXIT_INCONCLUSIVE
     print("OK property=%s tier=%s cases=%d decided=%d queries=%d (%.0fs)" % (prop, tr, len(cases), stats["decided"], stats["queries"], tm.s()))
     return EXIT_OK
